@@ -310,3 +310,97 @@ func Prop(c Case, x *h.Ctx) *h.Violation {
 	}
 	return nil
 }
+
+// Multi is the light variant used by the native fuzz target: ONE damaged copy per execution in which several header
+// bytes of ONE record are altered (multi-byte header damage; the exhaustive enumeration above is single-byte).
+type Multi struct {
+	File    Case  `json:"file"`
+	Record  int   `json:"record"`
+	Changes []Chg `json:"changes"`
+}
+
+type Chg struct {
+	Byte int  `json:"byte"`
+	Val  byte `json:"val"`
+}
+
+func GenMulti() *rapid.Generator[Multi] {
+	return rapid.Custom(func(t *rapid.T) Multi {
+		m := Multi{File: Gen().Draw(t, "file"), Record: rapid.IntRange(0, 11).Draw(t, "record")}
+		n := rapid.IntRange(2, 5).Draw(t, "nchanges")
+		for i := 0; i < n; i++ {
+			m.Changes = append(m.Changes, Chg{Byte: rapid.IntRange(0, 40).Draw(t, "byte"), Val: rapid.Byte().Draw(t, "val")})
+		}
+		return m
+	})
+}
+
+func PropMulti(m Multi, x *h.Ctx) *h.Violation {
+	c := m.File
+	dir, done := h.Scratch("c12m")
+	defer done()
+	orig := filepath.Join(dir, "orig.rio")
+	recs := make([][]byte, len(c.Recs))
+	for i, b := range c.Recs {
+		recs[i] = b.Bytes()
+	}
+	offs, size, err := rio.WriteSimple(orig, c.Comp, c.WBuf, recs)
+	if err != nil {
+		return h.V("damage/write-err", "writing the pristine file: %v", err)
+	}
+	data, err := os.ReadFile(orig)
+	if err != nil {
+		panic(err)
+	}
+	ri := m.Record % len(recs)
+	end := size
+	if ri+1 < len(offs) {
+		end = offs[ri+1]
+	}
+	hd, ok := rio.ParseHeader(data[offs[ri]:end])
+	if !ok {
+		return h.V("damage/harness-header", "independent decoder cannot parse header of record %d", ri)
+	}
+	buf := append([]byte{}, data...)
+	desc := ""
+	for _, ch := range m.Changes {
+		p := int(offs[ri]) + ch.Byte%hd.Len
+		buf[p] = ch.Val
+		desc += fmt.Sprintf("byte %d=%02x ", p, ch.Val)
+	}
+	if bytes.Equal(buf, data) {
+		return nil
+	}
+	e := &env{path: filepath.Join(dir, "damaged.rio"), rbuf: c.RBuf, recs: recs, offs: offs, limit: len(recs) + 2}
+	e.write(buf)
+	got, openErr, _ := e.readSeq()
+	if openErr != nil {
+		return h.V("damage/multi/open", "%s(record %d): Open failed: %v", desc, ri, openErr)
+	}
+	if len(got) > ri {
+		return h.V("damage/multi/returned-data", "%s(header of record %d): the sequential reader returned %d records (record %d as %s, written %s)", desc, ri, len(got), ri, show(got[ri]), show(recs[ri]))
+	}
+	if len(got) < ri {
+		return h.V("damage/multi/lost-earlier", "%s(header of record %d): only %d of the %d intact records before it were returned", desc, ri, len(got), ri)
+	}
+	for i := range got {
+		if !eq(got[i], recs[i]) {
+			return h.V("damage/multi/content", "%s: record %d = %s want %s", desc, i, show(got[i]), show(recs[i]))
+		}
+	}
+	mr, err := recordio.NewMemoryMappedReaderWithPath(e.path)
+	if err != nil {
+		panic(err)
+	}
+	if err := mr.Open(); err != nil {
+		_ = mr.Close()
+		return h.V("damage/multi/mmap-open", "mmap Open: %v", err)
+	}
+	rec, err := mr.ReadNextAt(offs[ri])
+	_ = mr.Close()
+	if err == nil {
+		return h.V("damage/multi/read-at-returned-data", "%s(header of record %d): ReadNextAt returned %s without error (written %s)", desc, ri, show(rec), show(recs[ri]))
+	}
+	x.NonTrivial()
+	return nil
+}
